@@ -75,6 +75,13 @@ CHECKS.update({
    text="One seeded history (many uniform ~0.5 KiB rows in two tables, sessions, batches, deletes) is executed under three configurations drawn from the documented ranges; every statement result, every state check and the logical event log must be identical, and no out-of-memory error is accepted at >= 24 cache pages. A run counts as non-trivial only if the small-cache configuration really evicted pages (cache probe). Rows with overflow chains, mixed cell sizes and UPDATE are outside the region (open findings D31/D32)."),
 })
 
+CHECKS.update({
+ "C14": dict(engine="E4-threadsim", level="exploration", ref="4 (C14), 2.3 (E4), Appendix B",
+   note="Real client threads and the engine's real pool workers run the real code, but exactly one registered thread holds the baton at any time; the baton changes hands only at the hook-H3 points (pager lock, page latches, frame byte access, job queue push/pop/idle wait, task completion wait, worker start). Races that need a preemption inside a latch-protected region are out of reach. Locks whose critical sections contain no H3 point need no point. Teardown (handle drop, pool shutdown) runs after the scheduler is uninstalled and is not part of the schedule. shuttle/loom cannot drive this code (parking_lot).",
+   technique="deterministic simulation of thread schedules: baton scheduler over cooperative hook points, seeded random interleavings of 2-4 client threads and 1-4 pool workers, exact deadlock detection, per-call step budget, sequence-stamped history with COUNT(*) linearizability bounds, recorded choice list as replay",
+   text="Seeded schedules of 2-4 client threads (own session or autocommit; each writes its own table, reads any table) over 1-4 pool workers. Oracles: no deadlock (no eligible thread while a client call is unfinished - detected at the step it happens), every call returns within a step budget, no engine thread panics, no statement fails for internal reasons, every SELECT COUNT(*) lies between the inserts acknowledged before it was invoked and those invoked before it returned, and the final contents equal the acknowledged (and committed) inserts."),
+})
+
 NOT_APPLICABLE = {
  "C05": "pure function of (table contents, query text): no schedule, crash point, clock or interleaving enters it; needs differential/property-based testing, not simulation",
  "C18": "pure function of (stored bytes, schema, snapshot, horizon); the property asks for bounded exhaustive enumeration of a codec, not simulation",
@@ -112,6 +119,7 @@ def main():
             "add_only": True,
         },
         "engines": [
+            {"name": "E4-threadsim", "path": "/verif/sim/src/threadsim.rs", "serves_properties": ["C14"], "kind_free_text": "real threads under a baton scheduler installed through hook H3: one runnable thread at a time, seeded choice at every lock / latch / queue / job-wait point"},
             {"name": "E5-wiresim", "path": "/verif/sim/src/wiresim.rs", "serves_properties": ["C20"], "kind_free_text": "simulated byte stream (fragmentation, short writes, EINTR, EOF, garbage) under the real framing and codec"},
             {"name": "E3a-walsim", "path": "/verif/sim/src/walsim.rs", "serves_properties": ["C17"], "kind_free_text": "storage-level simulator of the write-ahead log over the verif facade, with crash at every I/O prefix"},
             {"name": "E2-crashsim", "path": "/verif/sim/src/crashsim.rs", "serves_properties": [p for p, c in CHECKS.items() if c["engine"] == "E2-crashsim"], "kind_free_text": "E1 plus the I/O tap: every prefix of a history's file mutations is materialised as a disk image, opened with the real recovery and judged against the acknowledged model state; nested for recovery's own I/O"},
